@@ -21,7 +21,7 @@ import (
 )
 
 func main() {
-	mode := flag.String("mode", "rewrite", "rewrite | genos")
+	mode := flag.String("mode", "rewrite", "rewrite | genos | gostart")
 	shims := flag.String("shims", "sync,os", "comma separated std packages to redirect")
 	mod := flag.String("mod", "github.com/a-h/templ/zzverif/shim", "import path prefix of the shims")
 	out := flag.String("out", "", "genos: output file")
@@ -45,6 +45,17 @@ func main() {
 			n += c
 		}
 		fmt.Printf("rewrote %d imports\n", n)
+	case "gostart":
+		n := 0
+		for _, dir := range flag.Args() {
+			c, err := goStartDir(dir, *mod+"/simhook")
+			if err != nil {
+				fmt.Fprintln(os.Stderr, err)
+				os.Exit(1)
+			}
+			n += c
+		}
+		fmt.Printf("instrumented %d go statements\n", n)
 	case "genos":
 		if err := genReexport("os", "simos", *out, strings.Split(*overrides, ",")); err != nil {
 			fmt.Fprintln(os.Stderr, err)
@@ -99,6 +110,76 @@ func rewriteDir(dir string, m map[string]string) (int, error) {
 		}
 	}
 	return n, nil
+}
+
+// goStartDir inserts simhook.GoStart("<file>:<line>") at the top of the body of every
+// `go func(...) {...}(...)` statement in the non-test files of dir.
+func goStartDir(dir, hookPath string) (int, error) {
+	ents, err := os.ReadDir(dir)
+	if err != nil {
+		return 0, err
+	}
+	total := 0
+	for _, e := range ents {
+		name := e.Name()
+		if e.IsDir() || !strings.HasSuffix(name, ".go") || strings.HasSuffix(name, "_test.go") || strings.HasPrefix(name, "zz_verif") {
+			continue
+		}
+		p := filepath.Join(dir, name)
+		fset := token.NewFileSet()
+		f, err := parser.ParseFile(fset, p, nil, parser.ParseComments)
+		if err != nil {
+			return total, err
+		}
+		n := 0
+		ast.Inspect(f, func(nd ast.Node) bool {
+			g, ok := nd.(*ast.GoStmt)
+			if !ok {
+				return true
+			}
+			fl, ok := g.Call.Fun.(*ast.FuncLit)
+			if !ok {
+				return true
+			}
+			site := fmt.Sprintf("%s:%d", name, fset.Position(g.Pos()).Line)
+			call := &ast.ExprStmt{X: &ast.CallExpr{
+				Fun:  &ast.SelectorExpr{X: ast.NewIdent("verifsimhook"), Sel: ast.NewIdent("GoStart")},
+				Args: []ast.Expr{&ast.BasicLit{Kind: token.STRING, Value: strconv.Quote(site)}},
+			}}
+			fl.Body.List = append([]ast.Stmt{call}, fl.Body.List...)
+			n++
+			return true
+		})
+		if n == 0 {
+			continue
+		}
+		// add the import
+		imp := &ast.ImportSpec{Name: ast.NewIdent("verifsimhook"), Path: &ast.BasicLit{Kind: token.STRING, Value: strconv.Quote(hookPath)}}
+		added := false
+		for _, d := range f.Decls {
+			if gd, ok := d.(*ast.GenDecl); ok && gd.Tok == token.IMPORT {
+				gd.Specs = append(gd.Specs, imp)
+				if !gd.Lparen.IsValid() {
+					gd.Lparen = gd.Pos()
+					gd.Rparen = gd.End()
+				}
+				added = true
+				break
+			}
+		}
+		if !added {
+			f.Decls = append([]ast.Decl{&ast.GenDecl{Tok: token.IMPORT, Specs: []ast.Spec{imp}}}, f.Decls...)
+		}
+		var buf bytes.Buffer
+		if err := format.Node(&buf, fset, f); err != nil {
+			return total, err
+		}
+		if err := os.WriteFile(p, buf.Bytes(), 0o644); err != nil {
+			return total, err
+		}
+		total += n
+	}
+	return total, nil
 }
 
 // genReexport writes a file re-exporting every exported object of std package pkg,
